@@ -205,7 +205,11 @@ func readData(m *mp4.MdatBox, file []byte, start, size int64, orc []int, zeof bo
 	p := hx.Try(func() {
 		b, err = m.ReadData(start, size, newRS(file, 0, orc, zeof))
 	})
-	return resStr(b, err, p)
+	res := resStr(b, err, p)
+	if p == "" && err == nil {
+		appendToResult(m, file, start, size, b) // hygiene.go 2(b)
+	}
+	return res
 }
 
 func copyData(m *mp4.MdatBox, file []byte, start, size int64, orc []int, zeof bool) string {
@@ -402,6 +406,7 @@ func fail(site, class, witness, desc string) {
 var repoDir = new(string)
 
 func search(seed uint64, n, exh int) {
+	inSearch = true
 	rng := hx.NewRng(seed ^ 0xC08)
 	for i := 0; i < n; i++ {
 		plen := rng.Range(1, exh)
@@ -439,14 +444,19 @@ func search(seed uint64, n, exh int) {
 			if start+size == pstart+int64(plen) {
 				class = "range-ending-at-last-byte"
 			}
+			first := [4]string{readData(mm, mf.file, start, size, orc, zeof), readData(ml, mf.file, start, size, orc, zeof),
+				copyData(mm, mf.file, start, size, orc, zeof), copyData(ml, mf.file, start, size, orc, zeof)}
+			if evals%4 == 0 {
+				reaskAfterFailure(mm, ml, mf.file, start, size, orc, zeof, first, wit) // hygiene.go 3
+			}
 			for _, v := range []struct {
 				site string
 				got  string
 			}{
-				{"MdatBox.ReadData(in-memory)", readData(mm, mf.file, start, size, orc, zeof)},
-				{"MdatBox.ReadData(lazy)", readData(ml, mf.file, start, size, orc, zeof)},
-				{"MdatBox.CopyData(in-memory)", copyData(mm, mf.file, start, size, orc, zeof)},
-				{"MdatBox.CopyData(lazy)", copyData(ml, mf.file, start, size, orc, zeof)},
+				{"MdatBox.ReadData(in-memory)", first[0]},
+				{"MdatBox.ReadData(lazy)", first[1]},
+				{"MdatBox.CopyData(in-memory)", first[2]},
+				{"MdatBox.CopyData(lazy)", first[3]},
 			} {
 				if v.got != "o:"+hx.Hex(want) {
 					got := v.got
